@@ -122,8 +122,24 @@ def pde_ob(family, call, bname, hyps, msign, seed):
     return ob
 
 
-def subst_ob(oid, function, clause, term_fn, expected_fn, hyps, seed, with_m=True, msign=None, kind='post'):
-    return B.identity_ob(oid, function, [PROP], term_fn, expected_fn, hyps, clause, seed=seed, with_m=with_m, m_sign=msign, kind=kind)
+def subst_ob(oid, function, clause, term_fn, expected_fn, hyps, seed, with_m=True, msign=None, kind='post', oracle=None):
+    ob = B.identity_ob(oid, function, [PROP], term_fn, expected_fn, hyps, clause, seed=seed, with_m=with_m, m_sign=msign, kind=kind)
+    if oracle is not None:
+        # a refuted boundary / continuity identity: the price itself is compared with the quadrature oracle next to the witness point
+        family, fix = oracle
+        inner = ob.check
+        rp = oracle_replay(family, None)
+
+        def check():
+            vd = inner()
+            if vd.status == 'refuted' and vd.witness and isinstance(vd.witness.get('point'), dict):
+                try:
+                    vd.replay = rp(fix(dict(vd.witness['point'])))
+                except Exception:
+                    pass
+            return vd
+        ob.check = check
+    return ob
 
 
 # ---- terminal condition --------------------------------------------------------------------------
@@ -312,13 +328,15 @@ def build(tier, seed):
     for (bname, hyps, msign) in c08.branches('lookback'):
         obs.append(subst_ob('C07/bs_lookback_price/neumann[%s]' % bname, 'pfhedge.nn.functional.bs_lookback_price',
                             'd(lookback price)/dm = 0 at x = m (the running maximum is reflected)',
-                            lambda hyps=hyps: tm.subst(D.diff(c08.fterm('lookback', 'price', None, hyps), m), {x: m}), lambda: tm.ZERO, hyps, seed, msign=msign))
+                            lambda hyps=hyps: tm.subst(D.diff(c08.fterm('lookback', 'price', None, hyps), m), {x: m}), lambda: tm.ZERO, hyps, seed, msign=msign,
+                            oracle=('lookback', lambda pt: dict(pt, x=pt.get('m', 0.0) - 0.05))))
     hy_lo = OPEN + [tm.lt(m, tm.ZERO), tm.le(x, m)]
     hy_hi = OPEN + [tm.gt(m, tm.ZERO), tm.le(x, m)]
     obs.append(subst_ob('C07/bs_lookback_price/continuity[m=0]', 'pfhedge.nn.functional.bs_lookback_price',
                         'both branches of the lookback price agree where the running maximum equals the strike (m = 0)',
                         lambda: tm.subst(c08.fterm('lookback', 'price', None, hy_lo), {m: tm.ZERO}),
-                        lambda: tm.subst(c08.fterm('lookback', 'price', None, hy_hi), {m: tm.ZERO}), OPEN + [tm.le(x, tm.ZERO)], seed, msign=None))
+                        lambda: tm.subst(c08.fterm('lookback', 'price', None, hy_hi), {m: tm.ZERO}), OPEN + [tm.le(x, tm.ZERO)], seed, msign=None,
+                        oracle=('lookback', lambda pt: dict(pt, m=1e-9))))
     # ---- module wiring: module.price == functional with the module's strike / call
     for family, spec in c08.FAMILIES.items():
         for call in spec['calls']:
